@@ -6,9 +6,12 @@
    pending set always holds exactly one timer per enabled loop carrying the current token while
    the instance is connected and none otherwise; handle_timer fails at most with
    IncompleteProbeCycle (or Encode, or NotConnected for a probe timer nobody can have pending).
-   PARTIAL: that deadline-order delivery never yields IncompleteProbeCycle needs the clock and is
-   decided by the falsifier on the real crate (DESIGN.md). *)
-From Foca Require Import Laws MembersM FocaM L_Reject L_Timers L_Acct.
+   The clock (L_Deadline.v, L_TimedRun.v): pending timers carry deadlines; an open probe round always
+   has its SendIndirectProbe timer pending, due no later than the pending ProbeRandomMember, so a
+   runtime that delivers in deadline order (ties in Timer's Ord, however late) never sees
+   IncompleteProbeCycle; over whole timed histories every delivery returns Ok unless the codec
+   fails to encode. *)
+From Foca Require Import Laws MembersM ProbeM FocaM L_Reject L_Timers L_Acct L_CfgFrame L_Deadline L_TimedRun Concrete ConcreteLaws.
 
 Section C13.
 Context {Id Addr : Type} {IO : IdOps Id Addr} {CO : CodecOps Id} {HO : HandlerOps Id}.
@@ -170,6 +173,146 @@ Proof. exact (handle_timer_errors rnd f t). Qed.
 
 End C13_history.
 
+(* ---------- the clock ---------- *)
+Section C13_clock.
+Context {Id Addr : Type} {IO : IdOps Id Addr} {CO : CodecOps Id} {HO : HandlerOps Id} {IL : IdLaws IO}.
+
+(* the configuration (hence probe timing and the set of enabled periodic tasks) changes only
+   through set_config *)
+Theorem C13_config_changes_only_by_set_config (rnd : oracle) (f : @foca Id Addr HO) (i : @input Id) :
+  match i with ISetConfig _ => True | _ => cfg (fst (fst (fst (step rnd f i)))) = cfg f end.
+Proof. exact (step_cfg_frame rnd f i). Qed.
+
+(* the vocabulary: deadline order (ties in the order of Timer's Ord), what the runtime holds after a
+   call at time now - its clock may be coarse: a deadline now + after is recorded as rd (now + after)
+   for a monotone rounding rd, the identity for an exact clock -, an instance that is not Connected has
+   no open round, the open-round invariant *)
+Theorem C13_clock_terms (rd : N -> N) (f : @foca Id Addr HO) (P : list (N * timer Id)) (x y : N * timer Id) (now : N) (es : list (effect Id)) :
+  (before x y <-> fst x < fst y \/ (fst x = fst y /\ timer_seq (snd x) <= timer_seq (snd y)))
+  /\ stamp rd now es = flat_map (fun e => match e with Submit t a => [(rd (now + a), t)] | _ => [] end) es
+  /\ (PA f <-> (conn f <> Connected -> probe_validate (prb f) = true))
+  /\ (PI f P <->
+      PA f /\ (conn f = Connected -> probe_validate (prb f) = false ->
+               exists d tgt, In (d, TSendIndirectProbe tgt (token f)) P
+                             /\ forall d', In (d', TProbeRandomMember (token f)) P -> d <= d'))
+  /\ (probe_validate (prb f) = match p_direct (prb f) with None => true | Some _ => p_reached (prb f) end).
+Proof. split; [reflexivity|]. split; [reflexivity|]. split; [reflexivity|]. split; reflexivity. Qed.
+
+Theorem C13_open_round_initially (id0 : Id) (c0 : config) (h0 : hstate) : PI (@foca_init Id Addr HO id0 c0 h0) [].
+Proof. exact (PI_initially id0 c0 h0). Qed.
+
+Theorem C13_open_round_other (rnd : oracle) (rd : N -> N) (f : @foca Id Addr HO) (P : list (N * timer Id)) (now : N) (i : @input Id) :
+  match i with ITimer _ => False | _ => True end ->
+  PI f P -> let '(f', es, _, _) := step rnd f i in PI f' (P ++ stamp rd now es).
+Proof. exact (PI_other rnd rd f P now i). Qed.
+
+Theorem C13_open_round_deliver_other (rnd : oracle) (rd : N -> N) (f : @foca Id Addr HO) (P1 P2 : list (N * timer Id)) (d now : N) (t : timer Id) :
+  ~ (t = TProbeRandomMember (token f) /\ conn f = Connected) ->
+  PI f (P1 ++ (d, t) :: P2) ->
+  let '(f', es, _, _) := step rnd f (ITimer t) in PI f' (P1 ++ P2 ++ stamp rd now es).
+Proof. exact (PI_deliver_other rnd rd f P1 P2 d now t). Qed.
+
+Theorem C13_open_round_deliver_live (rnd : oracle) (rd : N -> N) (f : @foca Id Addr HO) (P1 P2 : list (N * timer Id)) (d now : N) :
+  (forall a b, a <= b -> rd a <= rd b) ->
+  conn f = Connected ->
+  Inv f (map snd (P1 ++ (d, TProbeRandomMember (token f)) :: P2)) ->
+  probe_rtt (cfg f) <= probe_period (cfg f) ->
+  let '(f', es, r, _) := step rnd f (ITimer (TProbeRandomMember (token f))) in
+  clean r -> PI f' (P1 ++ P2 ++ stamp rd now es).
+Proof. intros M. exact (PI_deliver_live rnd rd M f P1 P2 d now). Qed.
+
+(* THE CLOCK THEOREM *)
+Theorem C13_deadline_order_no_incomplete_cycle (rnd : oracle) (f : @foca Id Addr HO) (P1 P2 : list (N * timer Id)) (d : N) (t : timer Id) :
+  PI f (P1 ++ (d, t) :: P2) ->
+  (forall x, In x (P1 ++ P2) -> before (d, t) x) ->
+  snd (fst (step rnd f (ITimer t))) <> Failed EIncompleteProbeCycle.
+Proof. exact (deadline_order_no_incomplete rnd f P1 P2 d t). Qed.
+
+Theorem C13_deadline_order_errors (rnd : oracle) (f : @foca Id Addr HO) (P1 P2 : list (N * timer Id)) (d : N) (t : timer Id) :
+  PI f (P1 ++ (d, t) :: P2) -> Inv f (map snd (P1 ++ (d, t) :: P2)) ->
+  (forall x, In x (P1 ++ P2) -> before (d, t) x) ->
+  match snd (fst (step rnd f (ITimer t))) with Failed e => e = EEncode | _ => True end.
+Proof. exact (deadline_order_errors rnd f P1 P2 d t). Qed.
+
+(* whole timed histories: calls at arbitrary times, timers in deadline order however late *)
+Theorem C13_timed_history_terms (rnd : oracle) (rd : N -> N) (f f' : @foca Id Addr HO) (P : list (N * timer Id)) (es : list (effect Id)) (r : result) :
+  (side f f' P es r <-> clean r /\ (epoch_changed f f' es -> no_alias f' (map snd P) es))
+  /\ (forall id0 c0 h0, probe_rtt c0 <= probe_period c0 -> trun rnd rd (@foca_init Id Addr HO id0 c0 h0) [] 0)
+  /\ (forall P0 now now' i es0 r0 k, trun rnd rd f P0 now -> now <= now' ->
+        match i with ITimer _ => False | _ => True end ->
+        step rnd f i = (f', es0, r0, k) -> side f f' P0 es0 r0 -> trun rnd rd f' (P0 ++ stamp rd now' es0) now')
+  /\ (forall P1 d t P2 now now' es0 r0 k, trun rnd rd f (P1 ++ (d, t) :: P2) now -> now <= now' -> d <= now' ->
+        (forall x, In x (P1 ++ P2) -> before (d, t) x) ->
+        step rnd f (ITimer t) = (f', es0, r0, k) -> side f f' (P1 ++ P2) es0 r0 ->
+        trun rnd rd f' (P1 ++ P2 ++ stamp rd now' es0) now').
+Proof.
+  split; [reflexivity|]. split; [intros; apply tr_init; assumption|].
+  split; [intros; eapply tr_call; eauto|intros; eapply tr_timer; eauto].
+Qed.
+
+Theorem C13_timed_history_invariants (rnd : oracle) (rd : N -> N) (f : @foca Id Addr HO) (P : list (N * timer Id)) (now : N) :
+  (forall a b, a <= b -> rd a <= rd b) ->
+  trun rnd rd f P now -> Inv f (map snd P) /\ PI f P /\ probe_rtt (cfg f) <= probe_period (cfg f).
+Proof. intros M. exact (trun_invariants rnd rd M f P now). Qed.
+
+Theorem C13_timed_history_timer_results (rnd : oracle) (rd : N -> N) (f : @foca Id Addr HO) (P1 P2 : list (N * timer Id)) (d now : N) (t : timer Id) :
+  (forall a b, a <= b -> rd a <= rd b) ->
+  trun rnd rd f (P1 ++ (d, t) :: P2) now ->
+  (forall x, In x (P1 ++ P2) -> before (d, t) x) ->
+  match snd (fst (step rnd f (ITimer t))) with Failed e => e = EEncode | _ => True end.
+Proof. intros M. exact (trun_timer_results rnd rd M f P1 d t P2 now). Qed.
+
+End C13_clock.
+
+(* non-vacuity: a concrete timed history (join at t=5; the probe timer delivered 7 late; the
+   indirect-probe timer, due before the next probe timer, delivered first) *)
+Definition ex_cfg : config := mkConfig 1500000000 500000000 3 10 3000000000 86400000000000 1400 false None None None.
+Definition ex_f0 : @foca cid N cid_handler := foca_init (mkCid 1 0 0 0) ex_cfg (mkChst 0 255 []).
+Definition ex_o : oracle := fun _ _ => [].
+Definition ex_c2 := mkCid 2 0 0 0.
+Definition ex_rd (x : N) : N := x.   (* an exact clock *)
+Definition ex_r1 := step ex_o ex_f0 (IApplyMany [mkMember ex_c2 0 Alive] false).
+Definition ex_f1 := fst (fst (fst ex_r1)).
+Definition ex_r2 := step ex_o ex_f1 (ITimer (TProbeRandomMember 0)).
+Definition ex_f2 := fst (fst (fst ex_r2)).
+Definition ex_r3 := step ex_o ex_f2 (ITimer (TSendIndirectProbe ex_c2 0)).
+Definition ex_f3 := fst (fst (fst ex_r3)).
+
+Lemma step_eta {Id Addr} {IO : IdOps Id Addr} {CO : CodecOps Id} {HO : HandlerOps Id} rnd (f : @foca Id Addr HO) i :
+  step rnd f i = (fst (fst (fst (step rnd f i))), snd (fst (fst (step rnd f i))), snd (fst (step rnd f i)), snd (step rnd f i)).
+Proof. destruct (step rnd f i) as [[[a b] c] d]. reflexivity. Qed.
+
+Example C13_timed_history_exists :
+  exists P now, trun ex_o ex_rd ex_f3 P now /\ conn ex_f3 = Connected /\ probe_validate (prb ex_f3) = true /\ length P = 1%nat
+                /\ probe_validate (prb ex_f2) = false.
+Proof.
+  assert (T1 : trun ex_o ex_rd ex_f1 ([] ++ stamp ex_rd 5 (snd (fst (fst ex_r1)))) 5).
+  { eapply (tr_call ex_o ex_rd ex_f0 [] 0 5 (IApplyMany [mkMember ex_c2 0 Alive] false)).
+    - apply tr_init. vm_compute. discriminate.
+    - vm_compute. discriminate.
+    - exact I.
+    - apply step_eta.
+    - split; [vm_compute; exact I|]. intros [H|H]; vm_compute in H; [discriminate|contradiction]. }
+  replace ([] ++ stamp ex_rd 5 (snd (fst (fst ex_r1)))) with ([] ++ (1500000005, @TProbeRandomMember cid 0) :: []) in T1 by (vm_compute; reflexivity).
+  assert (T2 : trun ex_o ex_rd ex_f2 ([] ++ [] ++ stamp ex_rd 1500000012 (snd (fst (fst ex_r2)))) 1500000012).
+  { eapply (tr_timer ex_o ex_rd ex_f1 [] 1500000005 (TProbeRandomMember 0) [] 5 1500000012); [exact T1| | | | |].
+    - vm_compute. discriminate.
+    - vm_compute. discriminate.
+    - intros x [].
+    - apply step_eta.
+    - split; [vm_compute; exact I|]. intros [H|H]; vm_compute in H; [discriminate|contradiction]. }
+  replace ([] ++ [] ++ stamp ex_rd 1500000012 (snd (fst (fst ex_r2))))
+    with ([] ++ (2000000012, TSendIndirectProbe ex_c2 0) :: [(3000000012, @TProbeRandomMember cid 0)]) in T2 by (vm_compute; reflexivity).
+  assert (T3 : trun ex_o ex_rd ex_f3 ([] ++ [(3000000012, @TProbeRandomMember cid 0)] ++ stamp ex_rd 2000000012 (snd (fst (fst ex_r3)))) 2000000012).
+  { eapply (tr_timer ex_o ex_rd ex_f2 [] 2000000012 (TSendIndirectProbe ex_c2 0) _ 1500000012 2000000012); [exact T2| | | | |].
+    - vm_compute. discriminate.
+    - vm_compute. discriminate.
+    - intros x [<-|[]]. left. vm_compute. reflexivity.
+    - apply step_eta.
+    - split; [vm_compute; exact I|]. intros [H|H]; vm_compute in H; [discriminate|contradiction]. }
+  eexists _, _. split; [exact T3|]. vm_compute. auto.
+Qed.
+
 Print Assumptions C13_stale_timer_noop.
 Print Assumptions C13_connect_arms_every_loop_once.
 Print Assumptions C13_set_config_cannot_start_loops.
@@ -187,3 +330,15 @@ Print Assumptions C13_invariant_other.
 Print Assumptions C13_invariant_deliver_nonlive.
 Print Assumptions C13_invariant_live.
 Print Assumptions C13_timer_errors.
+Print Assumptions C13_config_changes_only_by_set_config.
+Print Assumptions C13_clock_terms.
+Print Assumptions C13_open_round_initially.
+Print Assumptions C13_open_round_other.
+Print Assumptions C13_open_round_deliver_other.
+Print Assumptions C13_open_round_deliver_live.
+Print Assumptions C13_deadline_order_no_incomplete_cycle.
+Print Assumptions C13_deadline_order_errors.
+Print Assumptions C13_timed_history_terms.
+Print Assumptions C13_timed_history_invariants.
+Print Assumptions C13_timed_history_timer_results.
+Print Assumptions C13_timed_history_exists.
